@@ -402,7 +402,7 @@ class StmtMixin:
         """isinstance(v, types) (subclass_ok) or type(v) in types"""
         if isinstance(v, bool):
             res = 'bool' in types or (subclass_ok and 'int' in types)
-        elif isinstance(v, int) or isinstance(v, (View, Bits)):
+        elif isinstance(v, int) or isinstance(v, (View, Bits)) or type(v).__name__ == 'Lin':
             res = 'int' in types
         elif isinstance(v, str):
             res = 'str' in types
@@ -457,7 +457,7 @@ class StmtMixin:
         t = self.py_truth(v)
         if t is not None:
             return (st, None, True) if t else (None, st, True)
-        if isinstance(v, (ModVal, NegMask)):
+        if isinstance(v, (ModVal, NegMask)) or type(v).__name__ == 'Lin':
             return self.split_values(v, ast.NotEq(), 0, st, node)
         if isinstance(v, (Param, View, Bits)):
             return self.split_values(v, ast.NotEq(), 0, st, node)
@@ -582,6 +582,8 @@ class StmtMixin:
             return self.split_mod(a, op, b, st, node)
         if isinstance(a, NegMask):
             return self.split_negmask(a, op, b, st, node)
+        if type(a).__name__ == 'Lin':
+            return self.split_lin(a, op, b, st, node)
         a = self.as_int_view(a, st, node)
         if isinstance(a, Bits):
             return self.split_bits(a, op, b, st, node)
